@@ -61,9 +61,9 @@ func c17FnNames(alpha []string) []string {
 
 // c17FnParent: the level-1 names that get level-2 entries (matching is per
 // path component, so the full cross product adds nothing): the one-character
-// names, a hidden directory and a two-letter one.
+// names, a hidden directory and the two-letter names spelled ab in any case.
 func c17FnParent(name string) bool {
-	return len(name) == 1 || name == ".a" || name == "aB"
+	return len(name) == 1 || name == ".a" || strings.EqualFold(name, "ab")
 }
 
 func c17FnSubjectCount() int {
@@ -83,7 +83,16 @@ func c17FnSubjectCount() int {
 func c17FnSetup() *c17FnTree {
 	c17FnOnce.Do(func() {
 		t := &c17Fn
-		t.root, t.err = os.MkdirTemp("", "c17fn-")
+		// a memory-backed directory when there is one: the check creates and
+		// removes some ten directories per case
+		dir := ""
+		if st, err := os.Stat("/dev/shm"); err == nil && st.IsDir() {
+			if d, err := os.MkdirTemp("/dev/shm", "c17fn-"); err == nil {
+				os.Remove(d)
+				dir = "/dev/shm"
+			}
+		}
+		t.root, t.err = os.MkdirTemp(dir, "c17fn-")
 		if t.err != nil {
 			return
 		}
@@ -138,12 +147,14 @@ func c17FnValidPath(s string) (string, bool) {
 
 // c17FnExtras gives the pattern-derived paths (closed under "parent of") to
 // create in the pattern's private tree: the pattern text itself, the text
-// with one level of backslashes removed, every substring, and a few
-// variations, whenever they are valid paths.
+// with the backslashes before slashes removed, with one level of backslashes
+// removed, doubled, prefixed, in upper and in lower case, whenever they are
+// valid paths.
 func c17FnExtras(p string) []string {
 	seen := map[string]bool{}
 	var out []string
-	for _, cand := range patExtras(p) {
+	un := unescapePattern(p)
+	for _, cand := range []string{p, c17FnBashPattern(p), un, "x" + p, p + p, strings.ToUpper(p), strings.ToUpper(un), strings.ToLower(un)} {
 		s, ok := c17FnValidPath(cand)
 		if !ok {
 			continue
@@ -471,7 +482,7 @@ func c17FilenamesBatch(c *vc.Ctx, batch []patCase, idx []int, fails []*vc.Fail) 
 			continue
 		}
 		fails[p.i] = &vc.Fail{
-			Class:  c17FnClass(pc.Pat, mode, dsub, dsh, p.match(pc.Pat)),
+			Class:  c17FnClass(pc.Pat, mode, dsub, dsh, p.expr),
 			Key:    fmt.Sprintf("%q mode=%s subj=%s", pc.Pat, modeString(mode), first),
 			Msg:    fmt.Sprintf("pattern %q mode %s (regexp %q): set of matching paths differs from bash pathname expansion: %s", pc.Pat, modeString(mode), p.expr, strings.Join(diffs, "; ")),
 			Detail: diffs,
@@ -482,7 +493,7 @@ func c17FilenamesBatch(c *vc.Ctx, batch []patCase, idx []int, fails []*vc.Fail) 
 // c17FnClass names the narrow families of Filenames-mode divergence recorded
 // as known findings. dsub are the subjects on which sh and bash differ, dsh[k]
 // tells whether sh matched dsub[k] (bash then did not).
-func c17FnClass(p string, mode pattern.Mode, dsub []string, dsh []bool, acceptsOwnText bool) string {
+func c17FnClass(p string, mode pattern.Mode, dsub []string, dsh []bool, expr string) string {
 	onlySh, onlyBash := true, true
 	for _, sh := range dsh {
 		if sh {
@@ -491,26 +502,36 @@ func c17FnClass(p string, mode pattern.Mode, dsub []string, dsh []bool, acceptsO
 			onlySh = false
 		}
 	}
-	if mode&pattern.GlobLeadingDot == 0 && onlySh {
-		// every path sh alone accepts has a component with a leading dot
-		allDot := true
-		for _, u := range dsub {
-			if !strings.HasPrefix(u, ".") && !strings.Contains(u, "/.") {
-				allDot = false
-			}
+	fold := mode&pattern.NoGlobCase != 0
+	contains := func(u, sub string) bool {
+		if fold {
+			return strings.Contains(strings.ToLower(u), strings.ToLower(sub))
 		}
-		if allDot {
-			return "filenames-leading-dot-matched-without-literal-dot"
-		}
+		return strings.Contains(u, sub)
 	}
-	if c17FnBracketSpansSlash(p) && acceptsOwnText {
+	if spans := c17FnBracketSpansWithSlash(p); len(spans) > 0 {
 		// a closed bracket expression holding a slash is emitted as its own
 		// text, verbatim (backslashes included, later metacharacters dead);
 		// bash separates the path components first, which makes the "[" an
 		// ordinary character and leaves the rest of the text a pattern
-		verbatim := true
+		emitted := false
+		for _, sp := range spans {
+			if strings.Contains(expr, regexp.QuoteMeta(sp)) {
+				emitted = true
+			}
+		}
+		verbatim := emitted
 		for k, u := range dsub {
-			if dsh[k] && strings.TrimSuffix(u, "/") != strings.TrimSuffix(p, "/") {
+			if !dsh[k] {
+				continue
+			}
+			has := false
+			for _, sp := range spans {
+				if contains(u, sp) {
+					has = true
+				}
+			}
+			if !has {
 				verbatim = false
 			}
 		}
@@ -518,14 +539,49 @@ func c17FnClass(p string, mode pattern.Mode, dsub []string, dsh []bool, acceptsO
 			return "filenames-bracket-holding-slash-taken-verbatim"
 		}
 	}
-	if mode&pattern.NoGlobStar == 0 && strings.Contains(p, `**\/`) && onlyBash {
-		return "filenames-globstar-before-escaped-slash"
+	if onlySh {
+		// two ways for the expression to accept a path bash never returns:
+		// a leading dot taken by something other than a literal dot, and a
+		// slash taken by a bracket expression or a negated group
+		dotOK := mode&pattern.GlobLeadingDot == 0
+		slashClass := ""
+		if c17FnBracketCanMatchSlash(p) {
+			slashClass = "filenames-bracket-expression-matches-slash"
+		} else if mode&pattern.ExtendedOperators != 0 && strings.Contains(p, "!(") {
+			slashClass = "filenames-negated-extglob-matches-slash"
+		}
+		all, bySlash := true, false
+		for _, u := range dsub {
+			isDot := dotOK && (strings.HasPrefix(u, ".") || strings.Contains(u, "/."))
+			isSlash := slashClass != "" && strings.Contains(strings.TrimSuffix(u, "/"), "/")
+			if !isDot && !isSlash {
+				all = false
+			}
+			if !isDot {
+				bySlash = true
+			}
+		}
+		if all && bySlash {
+			return slashClass
+		}
+		if all {
+			return "filenames-leading-dot-matched-without-literal-dot"
+		}
 	}
-	// the families of the other modes (unterminated brackets and groups ...)
 	dbash := make([]bool, len(dsh))
 	for k, sh := range dsh {
 		dbash[k] = !sh
 	}
+	for _, comp := range strings.Split(c17FnBashPattern(p), "/") {
+		// bash reads each path component on its own
+		if comp != p && c17Class(comp, mode, dsub, dsh, dbash) == "unterminated-bracket-with-trailing-range" {
+			return "unterminated-bracket-with-trailing-range"
+		}
+	}
+	if mode&pattern.NoGlobStar == 0 && strings.Contains(p, `**\/`) && onlyBash {
+		return "filenames-globstar-before-escaped-slash"
+	}
+	// the families of the other modes (unterminated brackets and groups ...)
 	return c17Class(p, mode, dsub, dsh, dbash)
 }
 
@@ -549,9 +605,10 @@ func c17FnBashPattern(p string) string {
 	return sb.String()
 }
 
-// c17FnBracketSpansSlash: reading the pattern the way this package does, some
-// bracket expression that closes holds a slash (plain or escaped).
-func c17FnBracketSpansSlash(p string) bool {
+// c17FnBrackets returns the raw text of every bracket expression that closes,
+// reading the pattern the way this package does.
+func c17FnBrackets(p string) []string {
+	var out []string
 	for i := 0; i < len(p); i++ {
 		switch p[i] {
 		case '\\':
@@ -564,23 +621,15 @@ func c17FnBracketSpansSlash(p string) bool {
 			if j < len(p) && p[j] == ']' {
 				j++
 			}
-			slash, closed := false, false
+			closed := false
 		span:
 			for ; j < len(p); j++ {
 				switch p[j] {
 				case '\\':
 					j++
-					if j < len(p) && p[j] == '/' {
-						slash = true
-					}
-				case '/':
-					slash = true
 				case '[':
 					if j+1 < len(p) && p[j+1] == ':' {
 						if e := strings.Index(p[j+2:], ":]"); e >= 0 {
-							if strings.Contains(p[j:j+2+e], "/") {
-								slash = true
-							}
 							j += 2 + e + 1
 						}
 					}
@@ -590,11 +639,40 @@ func c17FnBracketSpansSlash(p string) bool {
 				}
 			}
 			if closed {
-				if slash {
-					return true
-				}
+				out = append(out, p[i:j+1])
 				i = j
 			}
+		}
+	}
+	return out
+}
+
+// c17FnBracketSpansWithSlash: the closed bracket expressions holding a slash
+// (plain or escaped).
+func c17FnBracketSpansWithSlash(p string) []string {
+	var out []string
+	for _, b := range c17FnBrackets(p) {
+		if strings.Contains(b, "/") {
+			out = append(out, b)
+		}
+	}
+	return out
+}
+
+// c17FnBracketCanMatchSlash: some closed bracket expression without a slash
+// in its text accepts "/" when read without the Filenames flag (a negated
+// one, a range such as .-a, a class such as [:punct:]).
+func c17FnBracketCanMatchSlash(p string) bool {
+	for _, b := range c17FnBrackets(p) {
+		if strings.Contains(b, "/") {
+			continue
+		}
+		expr, err := pattern.Regexp(b, pattern.EntireString)
+		if err != nil {
+			continue
+		}
+		if rx, err := regexp.Compile(expr); err == nil && rx.MatchString("/") {
+			return true
 		}
 	}
 	return false
